@@ -122,3 +122,31 @@ prop("C08", "exploration",
       dict(name="c08_qr_f", sources=["c08_qr.cpp"], flavour="asan", flags=["-DC08_T=float"]),
       dict(name="c08_qr_ld", sources=["c08_qr.cpp"], flavour="asan", flags=["-DC08_T=long double"])],
      assumptions=TRUST + ["identities are judged in long double with allowance 64*n*eps*(||H||_F+|s|sqrt(n)); for long double inputs the oracle's own rounding is inside that margin"])
+
+
+# ------------------------------------------------------------------------------------------ C09
+prop("C09", "exploration",
+     "TridiagEigen / UpperHessenbergSchur / UpperHessenbergEigen called directly on generated matrices, sizes 2..64 (half of them <= 10), twelve entry classes each "
+     "(random, integer, graded over 16 decades, exact zero subdiagonals, repeated eigenvalues, Jordan-like, companion, zero matrix, scaled by 1e+-150 (type-appropriate), "
+     "orthogonal-Hessenberg, triangular / Wilkinson, Toeplitz, glued), float/double/long double; a driver case = 5 matrices; non-trivial = not the zero matrix; "
+     "distinct by (class, n, pattern, corner entries)",
+     [dict(name="c09_eig_d", sources=["c09_eig.cpp"], flavour="asan", flags=["-DC09_T=double"]),
+      dict(name="c09_eig_f", sources=["c09_eig.cpp"], flavour="asan", flags=["-DC09_T=float"]),
+      dict(name="c09_eig_ld", sources=["c09_eig.cpp"], flavour="asan", flags=["-DC09_T=long double"])],
+     assumptions=TRUST + ["identities judged in long double with allowance 64*n*eps*||.||_F; the spectrum as a multiset is judged through the power sums "
+                          "sum(lambda) = tr(H), sum(lambda^2) = tr(H^2) at backward-error level, so no conditioning assumption is needed"])
+
+
+# ------------------------------------------------------------------------------------------ C10
+prop("C10", "exploration",
+     "BKLDLT called directly: sizes 1..80 (45% of them <= 12), eight matrix classes (SPD, indefinite, zero diagonal, block diagonal with [0 a;a 0] blocks, graded, integer, "
+     "arrow, tridiagonal), four shift kinds (zero, random, equal to a diagonal entry, within 1e-8 of one), each matrix presented through Lower and Upper triangle "
+     "(other triangle = NaN) x ColMajor/RowMajor x plain/Map/block/expression; structurally singular inputs (1x1 equal to the shift, zero matrix, zero row+column, "
+     "sigma*I) incl. object reuse; the same through DenseSymShiftSolve / dense SymShiftInvert; float/double/long double/complex<double>. "
+     "A driver case = 4 scenarios; non-trivial = every scenario executed; distinct by (kind, n, class, shift, entries)",
+     [dict(name="c10_d", sources=["c10_bkldlt.cpp"], flavour="asan", flags=["-DC10_T=double"]),
+      dict(name="c10_f", sources=["c10_bkldlt.cpp"], flavour="asan", flags=["-DC10_T=float"]),
+      dict(name="c10_ld", sources=["c10_bkldlt.cpp"], flavour="asan", flags=["-DC10_T=long double"]),
+      dict(name="c10_cd", sources=["c10_bkldlt.cpp"], flavour="asan", flags=["-DC10_T=std::complex<double>", "-DC10_COMPLEX"])],
+     assumptions=TRUST + ["'nonsingular' is decided by a long-double full-pivoting LU of A - sigma I (smallest pivot > 1e3*n*eps*largest); inputs failing that are skipped, not judged",
+                          "residual allowance 64*n*eps*(||A-sigma I||_F ||x|| + ||b||)"])
